@@ -239,6 +239,20 @@ pub fn apply_op(sh: &Rc<Shared>, uid: usize, op: &Op, a: &[&Array], any_tracked:
         Op::Reshape(d) => a[0].reshape(d.clone()),
         Op::Matmul { ta, tb } => Array::matmul((a[0], *ta), (a[1], *tb), a.get(2).copied()),
         Op::Conv { sr, sc } => a[0].conv(a[1], (*sr, *sc)),
+        Op::Activation { act, detach } => {
+            let c = a[0].clone();
+            let c = if *detach { c.untracked() } else { c };
+            match act {
+                crate::event::Act::None => c,
+                crate::event::Act::Relu => (corgi::activation::relu())(c),
+                crate::event::Act::Sigmoid => (corgi::activation::sigmoid())(c),
+                crate::event::Act::Softmax => (corgi::activation::softmax())(c),
+            }
+        }
+        Op::Stack { views } => {
+            let parts: Vec<Array> = a.iter().map(|x| if *views { x.reshape(x.dimensions().to_vec()) } else { (*x).clone() }).collect();
+            Array::from(parts)
+        }
         Op::Cost(kind) => match kind {
             crate::event::CostKind::Mse => (corgi::cost::mse())(a[0], a[1]),
             crate::event::CostKind::CrossEntropy => (corgi::cost::cross_entropy())(a[0], a[1]),
